@@ -6,7 +6,9 @@ P4 == {<<<<1, 1>>, <<2, 1>>, <<3, 1>>, <<4, 1>>>>, <<<<5, 2>>, <<5, 1>>, <<5, 3>
        <<<<0, 1>>, <<0, 2>>, <<0, 3>>, <<0, 1>>>>,
        \* seq is a signed 64-bit integer: mixed signs, all negative, the extremes
        <<<<-1, 1>>, <<0, 2>>, <<-3, 3>>, <<2, 1>>>>, <<<<-5, 2>>, <<-2, 1>>, <<-2, 3>>, <<-9, 3>>>>,
-       <<<<-1, 3>>, <<1, 1>>, <<-1, 1>>, <<1, 2>>>>}
+       <<<<-1, 3>>, <<1, 1>>, <<-1, 1>>, <<1, 2>>>>,
+       \* -9 / 9 are replayed as i64::MIN / i64::MAX (order-preserving, see the driver)
+       <<<<-9, 1>>, <<-9, 2>>, <<-9, 2>>, <<-9, 1>>>>, <<<<-9, 2>>, <<9, 1>>, <<0, 3>>, <<9, 2>>>>}
 P5 == P4 \cup {<<<<1, 1>>, <<3, 2>>, <<3, 1>>, <<2, 3>>, <<9, 1>>>>, <<<<4, 1>>, <<4, 2>>, <<1, 3>>, <<4, 3>>, <<2, 2>>>>}
 P6 == P5 \cup {<<<<1, 1>>, <<2, 2>>, <<3, 3>>, <<3, 1>>, <<2, 3>>, <<1, 2>>>>}
 \* generator: print the arrival order of every complete run (one line per distinct arrival sequence)
